@@ -246,7 +246,7 @@ func main() {
 		if first != nil && first.OK {
 			run.Sample(map[string]interface{}{"query": text, "result": first.JSON, "modes": c.Modes[0]})
 		}
-		terms = append(terms, fmt.Sprintf("(%d, %s)", idx, gqlgen.CoqCase(schemas, c.Data, q.Vars, []string{gqlgen.CoqQuery(q)}, runs)))
+		terms = append(terms, fmt.Sprintf("(%d, %s)", idx, gqlgen.CoqCase(schemas, c.Data, q.Eff(), []string{gqlgen.CoqQuery(q)}, runs)))
 		if len(terms) >= shard {
 			flush(idx + 1)
 		}
